@@ -234,6 +234,9 @@ func (x *Exec) staticCallEffects(f *ssa.Function, cc *ssa.CallCommon, e *Effects
 	switch {
 	case strings.HasPrefix(name, "(*sync.Mutex)."), strings.HasPrefix(name, "(*sync.RWMutex)."):
 		if x.curEffFn != nil && x.noLockHavoc(x.curEffFn) {
+			if x.lockStateOn() {
+				e.Locks = true
+			}
 			return
 		}
 		e.Locks = true
